@@ -82,7 +82,9 @@ type UNameVal struct {
 
 type URH struct {
 	Nil    bool `json:"nil"`
-	HasExt bool `json:"hasExt"`
+	HasExt bool  `json:"hasExt"`
+	ExtKey []int `json:"extKey"` // spelling of the Sec-WebSocket-Extensions key in the map (hasExt)
+	ExtV   []int `json:"extV"`   // its value
 	Proto  struct {
 		Present bool  `json:"present"`
 		V       []int `json:"v"`
@@ -340,7 +342,11 @@ func buildRH(h *URH) http.Header {
 	}
 	rh := http.Header{}
 	if h.HasExt {
-		rh["Sec-Websocket-Extensions"] = []string{"x-app-extension"}
+		k, v := "Sec-Websocket-Extensions", "x-app-extension"
+		if len(h.ExtKey) > 0 {
+			k, v = cpBytes(h.ExtKey), cpBytes(h.ExtV)
+		}
+		rh[k] = []string{v} // direct map assignment: the key is used exactly as spelled
 	}
 	if h.Proto.Present {
 		rh["Sec-Websocket-Protocol"] = []string{cpBytes(h.Proto.V)}
@@ -428,7 +434,11 @@ func rhEcho(h *URH) Ev {
 	for _, e := range h.Extras {
 		ex = append(ex, Ev{"name": nz(e.Name), "v": nz(e.V)})
 	}
-	return Ev{"nil": h.Nil, "hasExt": h.HasExt, "proto": Ev{"present": h.Proto.Present, "v": nz(h.Proto.V)}, "extras": ex}
+	ek, ev := h.ExtKey, h.ExtV
+	if len(ek) == 0 {
+		ek, ev = bytesCP("Sec-Websocket-Extensions"), bytesCP("x-app-extension")
+	}
+	return Ev{"nil": h.Nil, "hasExt": h.HasExt, "extKey": nz(ek), "extV": nz(ev), "proto": Ev{"present": h.Proto.Present, "v": nz(h.Proto.V)}, "extras": ex}
 }
 
 func cfgEcho(c *UCfg) Ev {
